@@ -12,6 +12,7 @@ import (
 	"io"
 	"net"
 	"sync"
+	"sync/atomic"
 	"testing"
 	"time"
 
@@ -251,6 +252,42 @@ func c13round(t *testing.T, o *vout, rng *vrng, ndev, perDev, round int) {
 		}(names[i])
 	}
 
+	// device updates in progress too (same address: a no-op that still takes the device's write lock); a call that
+	// does not return means the device is wedged
+	var stuckUpdates int32
+	for i := range readers {
+		cmdWG.Add(1)
+		go func(name string, r *c13reader) {
+			defer cmdWG.Done()
+			d.devicesMu.RLock()
+			dev := d.activeDevices[name]
+			d.devicesMu.RUnlock()
+			addr, _ := net.ResolveTCPAddr("tcp", r.ln.Addr().String())
+			addr.IP = net.ParseIP("127.0.0.1")
+			for {
+				select {
+				case <-stopCmds:
+					return
+				default:
+				}
+				done := make(chan struct{})
+				go func() {
+					ctx, cancel := context.WithTimeout(context.Background(), time.Second)
+					defer cancel()
+					_ = dev.UpdateAddr(ctx, addr)
+					close(done)
+				}()
+				select {
+				case <-done:
+				case <-time.After(3 * time.Second):
+					atomic.AddInt32(&stuckUpdates, 1)
+					return
+				}
+				time.Sleep(5 * time.Millisecond)
+			}
+		}(names[i], readers[i])
+	}
+
 	// interleaved traffic of all readers, one writer goroutine per reader
 	var seq uint32 = uint32(round) << 20
 	plan := make([][]c13push, ndev)
@@ -384,4 +421,5 @@ func c13round(t *testing.T, o *vout, rng *vrng, ndev, perDev, round int) {
 		}
 	}
 	o.line(fmt.Sprintf("expect-zero extra-readings-round-%d", round), fmt.Sprint(extra))
+	o.line(fmt.Sprintf("expect-zero stuck-device-updates-round-%d", round), fmt.Sprint(atomic.LoadInt32(&stuckUpdates)))
 }
